@@ -180,10 +180,14 @@ def content_type_of(spec):
     return TEXT_CT if spec[0] == "text" else BIN_CT
 
 
-def build_details(det):
+def build_details(det, one_shot=False):
     out = {}
     for name, spec in det.items():
-        out[name] = _content.Content(content_type_of(spec), lambda c=spec[1]: list(c))
+        if one_shot:
+            # a payload that can be read once only (what content_from_stream gives without buffer_now)
+            out[name] = _content.Content(content_type_of(spec), lambda it=iter(list(spec[1])): it)
+        else:
+            out[name] = _content.Content(content_type_of(spec), lambda c=spec[1]: list(c))
     return out
 
 
@@ -208,6 +212,7 @@ class Reporter:
         self.reuse_tag_sets = False
         self.last_details = None
         self.mutated_args = []
+        self.one_shot_details = False
 
     def test(self, tid, kind):
         t = self.tests.get(tid)
@@ -249,7 +254,7 @@ class Reporter:
             t = self.test(tid, tk)
             m = getattr(r, method)
             if mode == "details":
-                det = build_details(payload["details"])
+                det = build_details(payload["details"], self.one_shot_details)
                 if self.shared is not None:
                     self.shared.clear()
                     self.shared.update(det)
@@ -371,3 +376,91 @@ def build_stack(spec, world, built, path=(), taggers=(), make_testtools=None):
         raise AssertionError(kind)
     built.nodes.append((kind, obj, list(path)))
     return obj
+
+
+# ------------------------------------------------------------------------------- decoy pipeline
+DECOY_HISTORY = [
+    ["startTestRun"], ["tags", ["dk"], []], ["time", 777001],
+    ["startTest", "decoy0", "placeholder"], ["tags", ["dl"], ["dk"]],
+    ["outcome", "decoy0", "placeholder", "addError", "details", {"details": {"dd": ["text", [b"decoy-", b"detail"]]}}],
+    ["stopTest", "decoy0", "placeholder"],
+    ["startTest", "decoy1", "placeholder"],
+    ["outcome", "decoy1", "placeholder", "addSkip", "reason", {"reason": "decoy-why"}],
+    ["stopTest", "decoy1", "placeholder"],
+    ["time", 777002],
+    ["startTest", "decoy2", "testcase"],
+    ["outcome", "decoy2", "testcase", "addFailure", "exc_info", {"exc": "DECOY-EXC"}],
+    ["time", 777003],
+    ["stopTest", "decoy2", "testcase"],
+    ["startTest", "decoy3", "placeholder"],
+    ["outcome", "decoy3", "placeholder", "addUnexpectedSuccess", "plain", {}],
+    ["stopTest", "decoy3", "placeholder"],
+    ["stopTestRun"],
+]
+
+
+def _decoy_view(world, built):
+    """What a second, independent pipeline delivered - without anything clock-dependent."""
+    view = []
+    for e in world.events:
+        if e.method == "time":
+            continue
+        d = e.data or {}
+        det = d.get("details")
+        view.append((e.target, e.method, e.test_id,
+                     None if det is None else tuple(sorted((k, v["bytes"]) for k, v in det.items())),
+                     repr(d.get("reason")), repr((d.get("err") or {}).get("type") if isinstance(d.get("err"), dict) else None)))
+    for b in built.bytest:
+        for kw in b["log"]:
+            view.append((b["name"], "on_test", kw["test"].id(), kw["status"], tuple(sorted(kw.get("tags") or ())),
+                         None if kw.get("snap") is None else tuple(sorted((k, v["bytes"]) for k, v in kw["snap"].items()))))
+    return view
+
+
+class Decoy:
+    """A second pipeline of the same shape in the same process, fed its own fixed history one call at
+    a time between the calls of the main one.  Two pipelines that share no object must not influence
+    each other: what the decoy delivers interleaved has to equal what it delivers when run alone."""
+
+    def __init__(self, spec, make_testtools):
+        self.spec = spec
+        self.make = make_testtools
+        self.reference = self._run_alone()
+        self.world = World()
+        self.built = Built()
+        self.rep = Reporter(build_stack(spec, self.world, self.built, make_testtools=make_testtools), DECOY_HISTORY)
+        self.raised = None
+
+    def _run_alone(self):
+        w, b = World(), Built()
+        rep = Reporter(build_stack(self.spec, w, b, make_testtools=self.make), DECOY_HISTORY)
+        try:
+            while rep.step() is not None:
+                pass
+        except Exception as e:   # the stack cannot take this history at all (say, a 2.6 terminal and details): no decoy
+            return None
+        return _decoy_view(w, b)
+
+    def step(self):
+        if self.reference is None or self.raised is not None:
+            return
+        try:
+            self.rep.step()
+        except Exception as e:   # noqa
+            self.raised = e
+
+    def finish(self, out, spec):
+        if self.reference is None:
+            return
+        while self.raised is None and self.rep.i < len(DECOY_HISTORY):
+            self.step()
+        if self.raised is not None:
+            out.violate("pipelines-interfere", "decoy-raised:" + type(self.raised).__name__,
+                        f"a second pipeline of shape {spec} raised {self.raised!r} when interleaved with the main one, not when run alone")
+            return
+        got = _decoy_view(self.world, self.built)
+        if got != self.reference:
+            diff = next((i for i, (a, b) in enumerate(zip(got, self.reference)) if a != b), min(len(got), len(self.reference)))
+            out.violate("pipelines-interfere", "decoy-delivery-differs",
+                        f"a second pipeline of shape {spec} delivered something else when interleaved with the main one: item {diff}: "
+                        f"{got[diff] if diff < len(got) else None} vs alone {self.reference[diff] if diff < len(self.reference) else None}")
